@@ -127,10 +127,17 @@ Record case := {
 Definition model_result (c : case) : result :=
   mux_serve (table_decode (c_decode c)) (option_map load (c_file c)) (c_input c).
 
+(* The high-water-mark update is observed on the channel the service sends it to, after the
+   connection is over: its position among the other calls is not observable, its count is. *)
+Definition is_hwm (c : string) : bool := String.eqb c "HWM".
+Definition calls_agree (m o : list string) : bool :=
+  list_eqb String.eqb (filter (fun c => negb (is_hwm c)) m) (filter (fun c => negb (is_hwm c)) o)
+  && Nat.eqb (List.length (filter is_hwm m)) (List.length (filter is_hwm o)).
+
 Definition check_case (c : case) : bool :=
   let r := model_result c in
   match r_end r with
-  | EClosed => c_alive c && list_eqb String.eqb (map fst (r_calls r)) (c_calls c)
+  | EClosed => c_alive c && calls_agree (map fst (r_calls r)) (c_calls c)
                && list_eqb out_eqb (r_out r) (c_out c)
   | _ => false
   end.
